@@ -2,24 +2,22 @@ CONSTANTS
   MaxDepth = 1
   Configs <- ConfigsQuick
   ExtraNew <- ExtraNewQuick
-  UnitLimit = 30
+  PropSet <- PropSetQuick
+  UnitLimit = 18
+  ActLimit = 18
 SPECIFICATION Spec
 CHECK_DEADLOCK FALSE
 INVARIANT TypeOK
-INVARIANT L_AdmixMarginal
-INVARIANT L_AdmixMean
-INVARIANT L_AdmixHat
+INVARIANT L_Admix
 INVARIANT L_AdmixRelabel
 INVARIANT L_SplitCopy
 INVARIANT L_Split1D
 INVARIANT L_PulseZero
-INVARIANT L_PulseOthers
-INVARIANT L_PulseHat
-INVARIANT L_PulseReplace
+INVARIANT L_Pulse
 INVARIANT L_PulseRelabel
 INVARIANT L_ReorderIsPermutation
 INVARIANT L_ReorderCompose
 INVARIANT L_RemoveReorder
 INVARIANT L_RemoveFubini
+INVARIANT L_RemoveIsTrapz
 INVARIANT L_Filter
-INVARIANT L_Mass
